@@ -249,7 +249,7 @@ func c20Exchange(t *testing.T, s *verifh.Session, r *rand.Rand, o *c20Origin, mo
 	}
 	method := verifh.Pick(r, []string{"GET", "GET", "POST", "POST", "PUT", "PATCH", "DELETE", "HEAD", "OPTIONS"})
 	uri := verifh.Pick(r, c20URIs)
-	kind := verifh.Pick(r, []string{"none", "none", "bytes", "bytes", "string", "json", "form", "ordered-form", "multipart", "getbody-func", "stream", "client-form", "big"})
+	kind := verifh.Pick(r, []string{"none", "none", "bytes", "bytes", "string", "json", "form", "ordered-form", "multipart", "multipart-chunked", "getbody-func", "stream", "client-form", "big"})
 	if w := mode.fixed; w != nil {
 		user, ku, pass, method, uri, kind = w.user, "witness", w.pass, "GET", w.uri, "none"
 	}
@@ -296,6 +296,8 @@ func c20Exchange(t *testing.T, s *verifh.Session, r *rand.Rand, o *c20Origin, mo
 		rq.SetOrderedFormData("z", "1", "a", "2 3", "m", verifh.RandBytes(r, 3, "xyz"))
 	case "multipart":
 		rq.SetFileBytes("file", "a.bin", []byte(payload)).SetFormData(map[string]string{"field": verifh.RandBytes(r, 4, "abc")})
+	case "multipart-chunked":
+		rq.SetFileBytes("file", "a.bin", []byte(payload)).SetFormData(map[string]string{"field": verifh.RandBytes(r, 4, "abc")}).EnableForceChunkedEncoding()
 	case "getbody-func":
 		p := payload
 		rq.SetBody(func() (io.ReadCloser, error) { return io.NopCloser(strings.NewReader(p)), nil })
@@ -440,7 +442,7 @@ func c20Exchange(t *testing.T, s *verifh.Session, r *rand.Rand, o *c20Origin, mo
 		}
 		// the body is sent again intact
 		sameBody := bytes.Equal(second.body, seen[0].body)
-		if kind == "multipart" && !payloadForbidden {
+		if (kind == "multipart" || kind == "multipart-chunked") && !payloadForbidden {
 			p1, e1 := c20Parts(seen[0].ctype, seen[0].body)
 			p2, e2 := c20Parts(second.ctype, second.body)
 			sameBody = e1 == nil && e2 == nil && p1 == p2
@@ -551,7 +553,7 @@ func c20Exchange(t *testing.T, s *verifh.Session, r *rand.Rand, o *c20Origin, mo
 			}
 			known["cf"]++
 			normalised = true
-		case kind == "multipart" && !payloadForbidden:
+		case (kind == "multipart" || kind == "multipart-chunked") && !payloadForbidden:
 			count("known:multipart-boundary")
 			if known["mp"] < 3 {
 				s.Observe("multipart "+id, false, "c20-multipart-resend", false, id, impl)
